@@ -4,9 +4,10 @@
    byte t on - accepted with the very value a and nothing left over (only trailing padding was lost).
    Proved for all inputs: header framing, section framing, the whole BQM body (every cut inside it is an
    error), and the composition rule for sequences of such parts (the shape of every dimod file).
-   Partial: JSON text layers enter as hypotheses (see C09.v). *)
+   The JSON text layers are proved for the modelled subset (see C09.v); whole BQM / QM / expression files. *)
 From Coq Require Import List NArith ZArith Arith Bool.
-From Dimod Require Import Gen.Gen_Codec Model.Codec Model.ChkC09 Proofs.CodecBase Proofs.CodecFrame Proofs.CodecBqm Proofs.CodecBqmTop.
+From Dimod Require Import Gen.Gen_Codec Model.Codec Model.ChkC09 Proofs.CodecBase Proofs.CodecFrame Proofs.CodecBqm Proofs.CodecBqmTop
+  Proofs.CodecLabel Proofs.CodecJson Proofs.CodecBqmFull Proofs.CodecQm Proofs.CodecExpr.
 Import ListNotations.
 
 Theorem header_prefix_safe :
@@ -51,7 +52,7 @@ Qed.
 Print Assumptions section_ok_only_if_padding_lost.
 
 (* every cut inside the (unpadded) BQM body is an error *)
-Theorem bqm_body_prefix_safe_partial :
+Theorem bqm_body_prefix_safe :
   forall w off lin adj m k,
     length off = w ->
     Forall (fun b => length b = w) lin ->
@@ -67,7 +68,7 @@ Proof.
   - destruct lin; [|discriminate]. destruct adj; [|discriminate]. exact (body_nil_strict w m off k H1 Hk).
   - exact (body_strict w off lin adj m H1 H2 H3 H4 H5 H6 E k Hk).
 Qed.
-Print Assumptions bqm_body_prefix_safe_partial.
+Print Assumptions bqm_body_prefix_safe.
 
 (* sequencing: a part followed by a (dependent) continuation stays prefix safe - this is how files are
    built from header, body and sections *)
@@ -78,13 +79,40 @@ Theorem sequence_prefix_safe :
 Proof. intros A B. exact (@psafeT_bind_gen A B). Qed.
 Print Assumptions sequence_prefix_safe.
 
-(* whole BQM files (v1 and v2): a cut at ANY byte is an error or the same content (_partial: JSON text
-   layers as hypotheses, see C09.v) *)
-Theorem decode_prefix_safe_bqm_partial : forall f k, BqmWF f -> HdrOK (bqm_hdr f) ->
-  (forall l, bf_labels f = Some l -> LabelsOK l) -> k < length (bqm_encode f) ->
+(* the JSON text layer: every proper prefix of a printed label array / header dictionary is rejected *)
+Theorem label_prefix_rejected : forall ls k, LabelsWF ls -> k < length (pr_labels ls) ->
+  labels_dec (firstn k (pr_labels ls)) = None.
+Proof. exact CodecLabel.label_prefix_rejected. Qed.
+Print Assumptions label_prefix_rejected.
+
+Theorem bqm_header_json_prefix_rejected : forall h k, HvWF (h_vars h) -> k < length (bqm_json h) ->
+  bqm_jd (firstn k (bqm_json h)) = None.
+Proof. intros h k W. exact (proj2 (bqm_hdr_ok h W) k). Qed.
+Print Assumptions bqm_header_json_prefix_rejected.
+
+(* whole BQM files (v1 and v2): a cut at ANY byte is an error or the same content *)
+Theorem decode_prefix_safe_bqm : forall f k, BqmWFL f -> k < length (bqm_encode f) ->
   run bqm_decode (firstn k (bqm_encode f)) = Err \/ run bqm_decode (firstn k (bqm_encode f)) = Ok f.
-Proof. exact CodecBqmTop.bqm_decode_prefix_safe. Qed.
-Print Assumptions decode_prefix_safe_bqm_partial.
+Proof. exact CodecBqmFull.bqm_decode_prefix_safe_full. Qed.
+Print Assumptions decode_prefix_safe_bqm.
+
+(* ... and it is the same content only when nothing but the padding of the trailing VARS section was lost
+   (never for an unlabelled or version-1 file: bqm_tail_pad = 0) *)
+Theorem decode_ok_only_if_padding_lost_bqm : forall f k x, BqmWFL f -> k < length (bqm_encode f) ->
+  run bqm_decode (firstn k (bqm_encode f)) = Ok x ->
+  x = f /\ length (bqm_encode f) - bqm_tail_pad f <= k.
+Proof. exact CodecBqmFull.bqm_ok_only_if_padding_lost. Qed.
+Print Assumptions decode_ok_only_if_padding_lost_bqm.
+
+Theorem decode_prefix_safe_qm : forall f k, QmWF f -> k < length (qm_encode f) ->
+  run qm_decode (firstn k (qm_encode f)) = Err \/ run qm_decode (firstn k (qm_encode f)) = Ok f.
+Proof. exact CodecQm.qm_decode_prefix_safe. Qed.
+Print Assumptions decode_prefix_safe_qm.
+
+Theorem decode_prefix_safe_expr : forall f k, ExprWF f -> k < length (expr_encode f) ->
+  run expr_decode (firstn k (expr_encode f)) = Err \/ run expr_decode (firstn k (expr_encode f)) = Ok f.
+Proof. exact CodecExpr.expr_prefix_safe. Qed.
+Print Assumptions decode_prefix_safe_expr.
 
 (* on the implementation's own bytes: every one of the 324 prefixes of the example file is an error or
    the same content, and the accepted ones start after the closing bracket of the VARS JSON *)
